@@ -466,14 +466,20 @@ def handle_mismatches(c, drv, scns, mism, tag):
     c.log('%s: %d mismatching traces are exactly the uint32 batch-overflow deviation, %d are not' % (tag, len(explained), len(other)))
     sel = explained[:2] + other[:6]
     sel_scns = [by_tr[m[0]] for m in sel]
+    # scenarios with a free-running phase (storm) depend on real scheduling: up to six replays, two reproductions required;
+    # sequential / gated scenarios must reproduce in both of the first two replays
+    racy = {m[0] for m in sel if any(o['op'] == 'storm' for o in by_tr[m[0]])}
     seen = []
-    for i in range(2):
+    for i in range(6 if racy else 2):
         m2, _ = run_and_validate(c, drv, sel_scns, 'confirm-%s-%d' % (tag, i), count=False)
         seen.append({m[0] for m in m2})
+        if i >= 1 and all(sum(1 for sn in seen if t in sn) >= 2 for t in racy):
+            break
     for tr, line, exp in sel:
         s = by_tr[tr]
         rp = c.save_replay('%s-tr%d.ndjson' % (tag, tr), s)
-        if not (tr in seen[0] and tr in seen[1]):
+        ok = (sum(1 for sn in seen if tr in sn) >= 2) if tr in racy else (tr in seen[0] and tr in seen[1])
+        if not ok:
             c.inconclusive.append('mismatch of %s trace %d did not reproduce' % (tag, tr))
             continue
         key = keys.get(tr)
